@@ -204,8 +204,16 @@ Definition enabled (i : inst) : bool :=
 
 (** newOAuth2IntrospectionAuthenticator: Content-Type and Accept are added to the
     endpoint's headers unless configured, the method defaults to POST *)
+(** Go maps have no order: the association lists of the model that stand for a
+    map (endpoint headers, values) are kept sorted by key; [insert_kt] keeps them so *)
+Fixpoint insert_kt (k : string) (t : tpl) (hs : list (string * tpl)) : list (string * tpl) :=
+  match hs with
+  | [] => [(k, t)]
+  | (k', t') :: r => if String.ltb k k' then (k, t) :: hs else (k', t') :: insert_kt k t r
+  end.
+
 Definition add_default (k v : string) (hs : list (string * tpl)) : list (string * tpl) :=
-  match lookup k hs with Some _ => hs | None => hs ++ [(k, [PLit v])] end.
+  match lookup k hs with Some _ => hs | None => insert_kt k [PLit v] hs end.
 
 Definition intro_ep (e : ep) : ep :=
   {| e_url := e_url e;
